@@ -142,7 +142,12 @@ func (x *Exec) execAppend(st *State, c *ssa.CallCommon, args []*Val, pos token.P
 		body := tAnd(
 			tImp(tAnd(tCmp(">=", i, intLit(0)), tCmp("<", i, dst.F[2].T)), tEq(tSelect(nw, i), tSelect(dstA, tArith("+", dst.F[1].T, i)))),
 			tImp(tAnd(tCmp(">=", i, dst.F[2].T), tCmp("<", i, n)), tEq(tSelect(nw, i), tSelect(srcA, tArith("+", src.F[1].T, tArith("-", i, dst.F[2].T))))))
-		x.assume(st, tForall([]*Term{i}, body, []*Term{tSelect(nw, i)}))
+		if off, ok := isIntLit(dst.F[1].T); ok && off == 0 {
+			// second trigger: a known element of the old array is an element of the new one (existential witnesses)
+			x.assume(st, tForall([]*Term{i}, body, []*Term{tSelect(nw, i)}, []*Term{tSelect(dstA, i)}))
+		} else {
+			x.assume(st, tForall([]*Term{i}, body, []*Term{tSelect(nw, i)}))
+		}
 		x.heapSet(st, key, tStore(h, r, nw))
 	}
 	return &Val{K: VSlice, Typ: rt, F: []*Val{scalar(r, nil), scalar(intLit(0), nil), scalar(n, nil)}}, nil
@@ -538,7 +543,30 @@ func (x *Exec) lockOp(st *State, c *ssa.CallCommon, acquire, write bool, pos tok
 
 		if mon != nil {
 			// entering the monitor: nothing is known about guarded state except the invariant
+			preLock := st.clone()
 			x.havocAllHeap(st, "lock")
+			if x.fc != nil {
+				// caller-owned memory named `stable` keeps its content (assumption, listed in the evidence)
+				for _, se := range x.fc.Stable {
+					sctx := x.specCtx(preLock, nil)
+					err := x.frameAllow(sctx, se, func(key string, whole bool, ref *Term) {
+						s, ok := x.heapSort[key]
+						if !ok {
+							return
+						}
+						prev := x.heapGet(preLock, key, s)
+						if whole {
+							st.heap[key] = prev
+						} else {
+							st.heap[key] = tStore(x.heapGet(st, key, s), ref, tSelect(prev, ref))
+						}
+					})
+					if err != nil {
+						x.errorf("stable %s: %v", se.String(), err)
+					}
+					x.assumptions["caller-owned memory is not mutated by other goroutines during the call: "+se.String()+" in "+x.key] = true
+				}
+			}
 			snapSt := st.clone()
 			st.snap = snapSt
 			ctx := x.specCtx(st, nil)
